@@ -10,7 +10,9 @@ TSP = lambda dim=5, f=0: {"kind": "tsp", "f": f, "dim": dim}
 def grid(quick):
     """-> list of (template, params, problem, (size_lo, size_hi))"""
     g = []
-    reals = [REAL(2), REAL(1, 1, 0.0, 4.0)] if quick else [REAL(2), REAL(1, 1, 0.0, 4.0), REAL(5, 1, -4.0, 12.0), REAL(3, 0, 0.5, 0.75)]
+    # instances: sphere, shifted multimodal in 1 dimension, plateaus (integer-valued objective: exact ties), ...
+    reals = ([REAL(2), REAL(1, 1, 0.0, 4.0), REAL(2, 2, -2.0, 2.0)] if quick else
+             [REAL(2), REAL(1, 1, 0.0, 4.0), REAL(2, 2, -2.0, 2.0), REAL(5, 1, -4.0, 12.0), REAL(3, 0, 0.5, 0.75)])
     bits = [BITS(8)] if quick else [BITS(1), BITS(8)]
     tsps = [TSP(5), TSP(5, 3)] if quick else [TSP(4), TSP(7, 1), TSP(8, 2), TSP(6, 3)]
     for pr in reals:
@@ -27,6 +29,8 @@ def grid(quick):
         # inertia schedules: decreasing (above), increasing (the example of the mapping documentation), constant
         g.append(("real_pso", {"num_particles": 3, "start_weight": 0.4, "end_weight": 0.9, "c_one": 0.5, "c_two": 0.5, "v_max": 0.1 * w}, pr, (3, 3)))
         g.append(("real_pso", {"num_particles": 2, "start_weight": 0.7, "end_weight": 0.7, "c_one": 0.0, "c_two": 0.0, "v_max": 10.0 * w}, pr, (2, 2)))
+        # no inertia at all: particles sitting on their own and the global best come to rest (zero velocity)
+        g.append(("real_pso", {"num_particles": 4, "start_weight": 0.0, "end_weight": 0.0, "c_one": 2.0, "c_two": 2.0, "v_max": 0.25 * w}, pr, (4, 4)))
         for t0 in ([1.0] if quick else [1e-9, 1.0, 1e9]):
             g.append(("real_sa", {"t_0": t0, "alpha": 0.9, "deviation": 0.1}, pr, (1, 1)))
         for nn in ([3] if quick else [1, 3, 8]):
@@ -98,6 +102,14 @@ def component_specs(quick, seeds, iters):
     out = []
     shapes = [(4, 0), (3, 0), (5, 3)] if quick else [(1, 0), (2, 0), (3, 0), (4, 0), (5, 3), (6, 5), (4, 1)]
     pcs = [0.5, 1.0] if quick else [0.0, 0.5, 1.0]
+    hetero = dict(REAL(3, 1, -4.0, 12.0), hetero=1)
+    for c in ["Saturation_after_eval", "Toroidal_after_eval", "Mirror_after_eval", "CompleteOneTailedNormalCorrection_after_eval"]:
+        for pr in (hetero, REAL(2, 0, -1.0, 1.0)):
+            for n in iters:
+                for s in seeds:
+                    out.append({"run": len(out), "template": "comp:" + c, "params": {"popsize": 4, "select": 0, "pc": 1.0, "rm": 1.0,
+                                "dev": 0.6 * (pr["hi"] - pr["lo"])}, "n": n, "seed": s, "eval": "seq", "prob": pr,
+                                "size_lo": 0, "size_hi": 10 ** 6})
     for comps, prob in ((real, REAL(3, 1, -4.0, 12.0)), (bits, BITS(8)), (perm, TSP(6))):
         for c in comps:
             for popsize, select in shapes:
